@@ -69,6 +69,8 @@ func specialArg(arg string) map[string]string {
 		return map[string]string{"ftp": "21", "http": "80", "https": "443", "ws": "80", "wss": "443"}
 	case "onlyfile":
 		return map[string]string{"file": ""}
+	case "http8080":
+		return map[string]string{"ftp": "21", "file": "", "http": "8080", "https": "443", "ws": "80", "wss": "443", "gopher": "7070"}
 	}
 	return map[string]string{}
 }
